@@ -7,7 +7,7 @@ From Coq Require Import Sorted.
 From Coq.Strings Require Import Byte.
 From EsVerif.Common Require Import Base Bytes.
 From EsVerif.C02 Require Import Arange Gen Model Spec SpecProofs SliceProofs RowsProofs CursorProofs MainProofs TextProofs
-  TextAligned RequestProofs RequestInst ScopeProofs RejectProofs HistoryProofs.
+  TextAligned RequestProofs RequestInst ScopeProofs RejectProofs HistoryProofs GenTie.
 From EsVerif.C02 Require Exec.
 From EsVerif.C04 Require TextModel Spec.
 
@@ -374,3 +374,38 @@ Proof. exact model_history_free. Qed.
 (* the or-ed verdict of a sequence is below 2 exactly when no call of the sequence is a failing input *)
 Theorem C02_v_seq_clean : forall l, Forall is_verdict l -> (Exec.v_seq l < 2 <-> Forall (fun v => v < 2) l).
 Proof. exact v_seq_clean. Qed.
+
+(* ================================================================== round 6: tie lemmas (Gen.v = Model.v)
+   Gen.v is regenerated from /repo's source on every run.  These theorems say that the hand-written definitions the
+   other theorems are about ARE the regenerated ones; they are re-proved whenever the regenerated text changes. *)
+(* Recfile._get_rows2read, translated statement by statement from the Python AST *)
+Theorem C02_tie_get_rows2read : forall n rows, get_rows2read_gen n rows = get_rows2read n rows.
+Proof. exact get_rows2read_tie. Qed.
+(* Records::process_slice, translated from the C++ text of records.cpp *)
+Theorem C02_tie_cpp_process_slice : forall n row1 row2 step,
+  cpp_process_slice_gen n row1 row2 step = cpp_process_slice n row1 row2 step.
+Proof. exact cpp_process_slice_tie. Qed.
+(* Recfile.read: which reader is called with which arguments (read_dispatch_gen, read_all_rows_gen,
+   read_all_cols_gen) and how the result is shaped (read_shape_gen) are the regenerated decision trees *)
+Theorem C02_tie_recfile_read : forall P f r fields columns split,
+  recfile_read P f r fields columns split =
+  (do rows2 <- rows2read_of (rf_nrows f) r;
+   do cs <- get_colnums_to_read (rf_names f) fields columns;
+   do data <- exec_path P f (fst cs) rows2
+                (read_dispatch_gen (rf_ascii f) (read_all_cols_gen (Some (fst cs)) (rf_ncols f))
+                                   (read_all_rows_gen rows2 (rf_nrows f)) (rf_nrows f));
+   Ok (apply_shape (read_shape_gen (snd cs) split) (fst cs) data)).
+Proof. exact recfile_read_tie. Qed.
+(* SFile.read: split before reduce, as the source has it *)
+Theorem C02_tie_sfile_read : forall P f rows fields columns split reduce,
+  sfile_read P f rows fields columns split reduce =
+  (do v <- recfile_read P f rows CNone (match columns with CNone => fields | _ => columns end) false;
+   Ok (apply_post (sfile_post_gen split reduce) v)).
+Proof. exact sfile_read_tie. Qed.
+
+Example tie_rows2read_runs : get_rows2read_gen 5 (Some [3; 1; 3]) = Ok (Some [1; 3]) /\ get_rows2read_gen 5 (Some [7]) = Err EValue.
+Proof. split; reflexivity. Qed.
+Example tie_cpp_runs : cpp_process_slice_gen 5 1 5 3 = Ok 2 /\ cpp_process_slice_gen 5 1 6 1 = Err ERuntime.
+Proof. split; reflexivity. Qed.
+Example tie_dispatch_runs : read_dispatch_gen false true true 5 = RPSlice 0 5 1 /\ read_dispatch_gen true true true 5 = RPColumns.
+Proof. split; reflexivity. Qed.
